@@ -46,6 +46,55 @@ CHECKS = {
         technique="Lean 4 proof (loop invariants over Array UInt32; GF(2) triangularity + pigeonhole; chunked decide +kernel over generated tables) + bitwise stream correspondence"),
 }
 
+
+def W(text): return text
+
+CHECKS.update({
+    "C01": dict(category="proof",
+        text="Lean 4 proofs: the comparison clamps that sit directly in front of the user callback at the COBYLA, BOBYQA, bounded-NEWUOA, Nelder-Mead/Sbplx and PRAXIS sites deliver a point inside [lb,ub] for EVERY box (finite, half-infinite, infinite, degenerate), every dimension and every non-NaN proposal of the numeric core, for every arithmetic; a coordinate with lb = ub is delivered equal to the bound; dimension elimination writes the fixed coordinates from lb bit for bit for every subset of fixed coordinates and every algorithm machine (elim_equiv). Tie: the wrapper model is replayed against every recorded run (S-wrap) and the site models map the hook-recorded proposals to the points the user saw (S-glue). The in-box monitor covers every callback of every algorithm incl. nested ones.",
+        design="3/C01", note=TB + "Modelled, not verified: the numeric cores are arbitrary proposers of non-NaN points; sites without NLopt glue in front of the callback (SLSQP, Luksan, original DIRECT, StoGO, AGS, affine samplers) are monitor-only (evidence unproved_sites). Known findings: Luksan TNEWTON* finite-difference step, original DIRECT rounding for far-offset boxes, SLSQP NaN iterates.",
+        technique="Lean 4 proof (order lemmas on the IEEE bit pattern; simulation over arbitrary algorithm machines) + site-level and wrapper-level differential correspondence"),
+    "C02": dict(category="proof",
+        text="Lean 4 proofs over the wrapper model of nlopt_optimize for an ARBITRARY algorithm machine: for the memoized families (COBYLA, TNEWTON*) the returned (x, opt_f) is bit-for-bit the first best in-box evaluation with the sign restored; no wrapper alters the algorithm's x / minf beyond expansion and sign; on every rejection x is untouched; the n = 0 object makes exactly one evaluation. Tie: every recorded run of the real library is replayed through the model (x, opt_f, code, user trace bitwise). Monitor: returned x bitwise in the objective trace with its value, inside the box, STOPVAL_REACHED only when reached, for all algorithms and early exits.",
+        design="3/C02", note=TB + "Not modelled: the incumbent bookkeeping inside f2c / third-party cores (monitor only). Known findings: original DIRECT with constraints and no feasible sample (opt_f = +Inf), AUGLAG when the first subsidiary run ends ROUNDOFF_LIMITED.",
+        technique="Lean 4 proof (invariant over runAlg for arbitrary algorithms; running-minimum fold) + replay correspondence"),
+    "C05": dict(category="proof",
+        text="Lean 4 proof (memo_returns_best_evaluated): for COBYLA and the truncated-Newton family, for every algorithm machine, opt_f is the minimum over the in-box evaluations (first minimiser, strict improvement rule), sign restored when maximizing. For the other listed incumbent-keeping algorithms the running-minimum monitor compares opt_f with the in-bounds trace on every run; the wrapper replay shows no layer changes the algorithm's result.",
+        design="3/C05", note=TB + "The incumbent rules inside BOBYQA/NEWUOA/DIRECT/CRS/ISRES/ESCH/StoGO/NM/Sbplx/PRAXIS are not modelled (monitor only).",
+        technique="Lean 4 proof for the memoized families + running-minimum monitor + replay correspondence"),
+    "C07": dict(category="proof",
+        text="Lean 4 proof (optimize_preserves_settings): for every algorithm machine, user and return path the object's user-visible settings after nlopt_optimize equal those before (maximize flip and stopval sign undone via neg(neg s) = s on the bit pattern, an unset initial step stays unset); determinism of the model is by construction, its premise for the code is the regenerated table of writable globals (no_hidden_state, rng_and_timer_are_tls over nm/readelf of the fresh build). Monitor: the same problem in two processes, twice on one object (reseeded) and on a copy gives bitwise equal traces and results; getter snapshots before = after on every path.",
+        design="3/C07", note=TB + "Nondeterminism from uninitialised reads inside numeric cores is not expressible in the model. Known shared mutable globals (StoGO counters) are a C16 finding.",
+        technique="Lean 4 proof over arbitrary algorithm machines + generated global-symbol table (decide) + pair runs"),
+    "C08": dict(category="proof",
+        text="Lean 4 proof (max_is_min_neg): for every algorithm machine, user and layer stack, maximizing f with stopval s and minimizing -f with stopval -s hand the algorithm the same problem and indistinguishable callbacks (simulation lemma), hence equal evaluation points, x and code, opt_f the exact negation, and the object still reports maximize / stopval s. Tie: both runs of every pair are replayed through the model. Monitor: bitwise pair comparison for all algorithms.",
+        design="3/C08", note=TB, technique="Lean 4 proof (bisimulation of callback environments for arbitrary algorithms) + pair runs"),
+    "C11": dict(category="proof",
+        text="Lean 4 proof (elim_equiv): for every algorithm machine of the elimination list (regenerated from elimdim_wrapcheck), every dimension and every non-empty subset of fixed coordinates, the algorithm receives the same problem as for the hand-reduced object (lb, ub, xtol_abs, x_weights, dx shrunk) and indistinguishable callbacks; user callbacks see fixed coordinates bitwise on the bound; x = expand(x_reduced); equal opt_f, code, count. Tie: inner problem dump at nlopt_optimize_ entry vs the model (S-wrap). Monitor: pair runs full vs hand-reduced for every subset (n <= 3) and sampled subsets up to n = 8.",
+        design="3/C11", note=TB + "Hypothesis of the theorem: the algorithm never requests gradients of vector constraints (true for the elimination list). Fixed by commit: x_weights were not shrunk.",
+        technique="Lean 4 proof (shrink/expand algebra + simulation) + pair runs"),
+    "C12": dict(category="proof",
+        text="Lean 4 proofs: the flattened value, tolerance and gradient-row arrays and the constraint count that an algorithm reads are the same for a vector constraint and for its components in order (any mix, any m, n); tolerances are copied / default to zero (setter_stores_addCon). Tie: S-api constraint storage; both runs of each pair replayed. Monitor: pair runs vector vs scalars for every constraint-capable algorithm; AGS rejects dimension > 1.",
+        design="3/C12", note=TB + "Assumption: a numeric core reads constraints only through the flattened arrays filled by NLopt (observed by the pair runs).",
+        technique="Lean 4 proof (list algebra of flattening) + pair runs"),
+    "C13": dict(category="proof",
+        text="Lean 4 proofs (wrappers_forward_trace/args): through every wrapper stack each user invocation has the creation-time dimension, the same function, a gradient request iff the algorithm asked (vector constraints under elimination excepted, stated), exactly one user invocation per algorithm query and none after the algorithm returned. Monitor: every callback asserts n, its own data pointer, m and the result buffer; gradient NULL for every derivative-free algorithm incl. subsidiary use.",
+        design="3/C13", note=TB + "Gradient buffer sizes inside cores are observed by the sanitizer builds only.",
+        technique="Lean 4 proof (trace relation for arbitrary algorithms) + argument assertions in every callback"),
+    "C14": dict(category="proof",
+        text="Lean 4 proofs over a transcription of options.c on an ownership heap: a call returning an error leaves every getter of every object unchanged (all 33 operations, all worlds); each setter stores exactly the documented value and changes nothing else; getters return the stored arrays / documented defaults; tiny bound gaps collapse (which side moves, per variant); the default step is nonzero and not infinite; algorithm and dimension are immutable; nlopt_copy yields equal views on fresh blocks (for every reachable object). Tie: exhaustive short and random API histories over several live objects: return codes, allocator and hook events and full snapshots compared after every call.",
+        design="3/C14", note=TB + "User callbacks and data are opaque ids; nlopt_munge_data and the f77 API are not modelled.",
+        technique="Lean 4 proof (refinement to the view record, induction over histories) + history-level differential correspondence"),
+    "C15": dict(category="proof",
+        text="Lean 4 proofs: conservation law over user-data ids (held + released = handed in) for every API function incl. failing and empty registrations; destroy releases exactly the held ids in the C order; nlopt_copy calls the copy hook once per non-NULL pointer with fresh results; set_local_optimizer releases every fresh id it obtained; history theorem (ledger_history) and corollaries no_double_release / all_released_exactly_once. Tie: hook events are part of the compared event list after every call. Monitor: ledger over the real event stream.",
+        design="3/C15", note=TB + "Premise: hooks installed right after creation and kept; a failing copy (OOM / hook failure) deliberately leaks the fresh ids (stated as copy_oom_leaks_fresh_ids).",
+        technique="Lean 4 proof (multiset conservation by induction over histories) + event-level correspondence"),
+    "C18": dict(category="proof",
+        text="Lean 4 proofs: ownership invariant (blocks owned by live objects = live blocks, no duplicates) preserved by every operation under every allocation-oracle state and over all histories; no free of a non-live block; destroying everything leaves no live block; an allocation failure is reported as NULL / negative code; failed create / copy restore the heap; settings unchanged (with C14). Tie: every k-th allocation of every call of the scenarios is made to fail on the real library (malloc interposed) and compared with the model event for event.",
+        design="3/C18", note=TB + "Exactly one failing allocation per run; the error-message allocation is best effort. Six defects fixed (see known_findings.jsonl).",
+        technique="Lean 4 proof (footprint/frame lemmas, induction over histories x oracle) + exhaustive fault-point correspondence"),
+})
+
 NOT_YET = {}
 
 PROPS = ["C%02d" % i for i in range(1, 21)]
